@@ -284,7 +284,9 @@ pub fn audit_registry(sim: &Sim, seq: u64, cov: &mut Cover) {
         10 => "10",
         11..=29 => "11-29",
         30 => "30",
-        _ => "31+",
+        31..=40 => "31-40",
+        41..=60 => "41-60",
+        _ => "61+",
     };
     // C17.a: denom query
     for (denom, dec) in &m.natives {
